@@ -37,6 +37,9 @@ class Plain:
         return False
 
     def __repr__(self):
+        hook, self.on_repr = getattr(self, "on_repr", None), None
+        if hook is not None:
+            hook()     # e.g. registers one more callback on the exit stack that holds this manager
         return "Plain(%s)" % self.nid
 
 
@@ -92,10 +95,12 @@ class Rec:
 
 
 class Builder:
-    def __init__(self, exiting_nid=None, probe=None):
+    def __init__(self, exiting_nid=None, probe=None, allow_repr_mutation=False):
         self.exiting_nid = exiting_nid
         self.probe = probe
         self.recs = {}
+        self.allow_repr_mutation = allow_repr_mutation
+        self.late_registrations = 0
 
     def make(self, node):
         r = Rec(node)
@@ -189,6 +194,13 @@ class Builder:
                 st.push(sub.obj)
             self._fill(sub)
             r.regs.append((kind, sub))
+            if self.allow_repr_mutation and reg[1].get("repr_registers") and isinstance(sub.obj, Plain):
+                # describing this manager (its repr) registers one more callback on the very stack that is being
+                # described: the description must be a consistent snapshot taken before that
+                def late(st=st):
+                    self.late_registrations += 1
+                    st.callback(cb_fn, "late")
+                sub.obj.on_repr = late
         elif kind == "push_fn":
             st.push(exit_fn)
             r.regs.append((kind, exit_fn))
@@ -337,7 +349,7 @@ def run_tree(req):
     root = req["root"]
     obs = []
     stats = {}
-    b = Builder()
+    b = Builder(allow_repr_mutation=True)
     rr = b.make(root)
 
     async def holder():
@@ -385,6 +397,7 @@ def run_tree(req):
             st.as_stdlib_summary(show_contexts=True)
         except BaseException as ex:
             obs.append({"kind": "format_raised", "exc": repr(ex)})
+        stats["late_registrations"] = b.late_registrations
     # ---- exiting observation: let the body finish; the first async plain manager met on the way out suspends
     try:
         co.close()
